@@ -656,7 +656,8 @@ impl TransactionBuilder {
             .filter(|i| by(&available_inputs[**i].output.amount).is_some())
             .cloned()
             .collect::<Vec<usize>>();
-        let mut associated_indices: BTreeMap<TransactionOutput, Vec<usize>> = BTreeMap::new();
+        // keyed by the position in `outputs`: identical outputs are separate requests
+        let mut associated_indices: BTreeMap<usize, Vec<usize>> = BTreeMap::new();
         let mut outputs = self
             .outputs
             .0
@@ -666,7 +667,7 @@ impl TransactionBuilder {
             .collect::<Vec<TransactionOutput>>();
         outputs.sort_by_key(|output| by(&output.amount).expect("filtered above"));
         let mut available_coins = by(input_total).unwrap_or(BigNum::zero());
-        for output in outputs.iter().rev() {
+        for (output_index, output) in outputs.iter().enumerate().rev() {
             // TODO: how should we adapt this to inputs being associated when running for other assets?
             // if we do these two phases for each asset and don't take into account the other runs for other assets
             // then we over-add (and potentially fail if we don't have plenty of inputs)
@@ -697,7 +698,7 @@ impl TransactionBuilder {
                         .expect("do not call on asset types that aren't in the output"),
                 )?;
                 associated_indices
-                    .entry(output.clone())
+                    .entry(output_index)
                     .or_default()
                     .push(i);
             }
@@ -705,8 +706,8 @@ impl TransactionBuilder {
         }
         if !relevant_indices.is_empty() && pure_ada {
             // Phase 2: Improvement
-            for output in outputs.iter_mut() {
-                let associated = associated_indices.get_mut(output);
+            for (output_index, output) in outputs.iter_mut().enumerate() {
+                let associated = associated_indices.get_mut(&output_index);
                 if let Some(associated) = associated {
                     for i in associated.iter_mut() {
                         let random_index = rng.gen_range(0..relevant_indices.len());
@@ -733,8 +734,8 @@ impl TransactionBuilder {
         }
 
         // after finalizing the improvement we need to actually add these results to the builder
-        for output in outputs.iter() {
-            if let Some(associated) = associated_indices.get(output) {
+        for output_index in 0..outputs.len() {
+            if let Some(associated) = associated_indices.get(&output_index) {
                 for i in associated.iter() {
                     let input = &available_inputs[*i];
                     let input_fee = self.fee_for_input(
